@@ -288,7 +288,10 @@ func (s *Session) Destroy(response http.ResponseWriter, request *http.Request) e
 	// Get the session cookie and delete it.
 	cookie, err := request.Cookie(SessionCookie)
 	if err != nil {
-		return fmt.Errorf("Could not retrieve session cookie: %s", err)
+		// The request did not carry the cookie (e.g. the session was created
+		// in this very request). Expire the cookie the response may have set.
+		cookie = NewSessionCookie()
+		cookie.Name = SessionCookie
 	}
 	deleteCookie(cookie, response)
 
